@@ -1,7 +1,8 @@
-import Glom.Model.C19
+import Glom.Model.C19Face
 import Glom.Generated.C19Facts
 /-
-  The facts of C19 instantiated with what the extractor regenerated from /repo/glom/cli.py.
+  The facts of C19 instantiated with what the extractor regenerated from /repo/glom/cli.py, and
+  the option table read off the Command object `get_command()` builds.
 -/
 namespace Glom.C19
 
@@ -18,5 +19,18 @@ def genFacts : Facts :=
     specReadCatch := Generated.cliSpecReadCatch
     targetReadCatch := Generated.cliTargetReadCatch
     stdinReadCatch := Generated.cliStdinReadCatch }
+
+/-- `parse_as` as the extractor names it → the model's kind -/
+def kindOf (k : String) : String :=
+  if k == "str" then "str" else if k == "int" then "int"
+  else if "const:".toList.isPrefixOf k.toList then "const" else k
+
+def genTable : Table :=
+  { flags := Generated.cliFlagTable.map (fun f => ⟨f.1, kindOf f.2.2.1, f.2.2.2.2⟩)
+    keys := Generated.cliFlagKeys
+    posMax := if Generated.cliPosMax < 0 then none else some Generated.cliPosMax.toNat
+    postPosargs := Generated.cliPostPosargs.head? != some "none"
+    flagfile := Generated.cliFlagfileFlag
+    help := Generated.cliHelpFlag }
 
 end Glom.C19
